@@ -17,6 +17,7 @@
   Every definition is an `abbrev` (see the note in RectSrcPrelude). Import-free apart from EG.Basic / EG.Model.
 -/
 import EG.Model.RectSrcPrelude
+import EG.Model.Target
 namespace EG.CurveSrcPrelude
 open EG EG.RectSrcPrelude
 
@@ -64,5 +65,32 @@ abbrev option_unwrap_or_else {α : Type} (o : Option α) (f : Unit → α) : α 
   match o with
   | some v => v
   | none => f ()
+/-- `Option::filter` -/
+abbrev option_filter {α : Type} (o : Option α) (f : α → Bool) : Option α :=
+  match o with
+  | some v => if f v then some v else none
+  | none => none
+/-- `==` on a field-less enum (`#[derive(PartialEq)]`) -/
+abbrev enum_eq {α : Type} [DecidableEq α] (a b : α) : Bool := decide (a = b)
+
+/-! ### functions that draw on a generic target
+
+Such a function is translated to the list of target calls it makes on a target that never fails (see tools/tr_curve.py):
+the hand models' `EG.Call`. -/
+
+/-- `target.fill_solid(&area, color)` -/
+abbrev Target_fill_solid (area : Rectangle) (color : EG.Color) : List EG.Call := [EG.Call.fillSolid area color]
+
+/-- The items a `for` loop takes from an iterator given by its `next` (value, updated iterator): up to the first `None`,
+on explicit fuel (`fuel` items at most: the theorems state how much suffices). -/
+def iter_collect {σ α : Type} (next : σ → Option α × σ) : Nat → σ → List α
+  | 0, _ => []
+  | fuel + 1, s =>
+    match next s with
+    | (some a, s') => a :: iter_collect next fuel s'
+    | (none, _) => []
+/-- `for x in it { body(x)?; }` on a target that never fails: the calls of `body` for every item, in order. -/
+abbrev for_calls {σ α : Type} (next : σ → Option α × σ) (body : α → List EG.Call) (fuel : Nat) (it : σ) : List EG.Call :=
+  (iter_collect next fuel it).flatMap body
 
 end EG.CurveSrcPrelude
